@@ -121,6 +121,12 @@ def main():
             elif set(res[t]) - ALLOWED_AXIOMS: broken.append('proof: theorem %s depends on axioms %s' % (t, res[t]))
             else: discharged += 1
         discharged += len(table_lemmas)          # TableProofs.vo was produced by this run: every table lemma checked
+    if ok and tier == 'thorough':
+        # independent re-check of the compiled cone of the property, and the axioms it relies on
+        rc, chk = lib.sh('cd %s && timeout 1500 coqchk -o -silent -Q . Jawk Jawk.Props.%s 2>&1 | tail -15' % (lib.COQ, prop), timeout=1600)
+        m = re.search(r'\* Axioms:\s*(.*?)\n\s*\n', chk, re.S)
+        cov['coqchk_axioms'] = (m.group(1).strip() if m else 'coqchk did not finish: ' + chk[-200:])
+        if not m or m.group(1).strip() != '<none>': broken.append('coqchk: ' + cov['coqchk_axioms'][:300])
     bad = hygiene()
     if bad: broken.append('hygiene: ' + '; '.join(bad[:5]))
     cov['obligations'] = len(obligations); cov['discharged'] = discharged
